@@ -11,6 +11,7 @@ crate itself is recompiled for every new hash.
 """
 import fcntl
 import hashlib
+import json
 import os
 import re
 import shutil
@@ -40,6 +41,11 @@ def _files(root, rels):
         elif os.path.exists(p):
             out.append(p)
     return sorted(out)
+
+
+# runner jobs that call a helper function of the crate directly: (cfg that compiles the job out, pattern in the compiler's message)
+OPTIONAL_JOBS = [('no_line_job', r'get_line_number'), ('no_slots_job', r'storage_slots_used'), ('no_typesize_job', r'get_type_size'),
+                 ('no_version_job', r'get_solidity_major_minor_patch_version'), ('no_fileversion_job', r'get_solidity_version_from_source_unit')]
 
 
 def source_hash():
@@ -140,7 +146,16 @@ def prepare(verbose=False):
                 so, se = pr.communicate()
                 log.append('$ cargo build (%s)\n%s' % (name, se[-4000:]))
                 if pr.returncode != 0:
-                    raise BuildError('%s build failed:\n%s' % (name, se[-3000:]))
+                    # a helper function of the crate whose signature changed only breaks the runner job that calls it directly: compile
+                    # that job out (it answers UNAVAILABLE, the checks turn that into UNDECIDED) instead of giving up on the whole tree
+                    cfgs = [cfg for cfg, sym in OPTIONAL_JOBS if re.search(sym, se)]
+                    if not cfgs:
+                        raise BuildError('%s build failed:\n%s' % (name, se[-3000:]))
+                    env2 = dict(env_run, RUSTFLAGS=' '.join('--cfg %s' % c for c in cfgs))
+                    p2 = _run(['cargo', 'build', '--offline', '--bins'], rdir, env2, log)
+                    if p2.returncode != 0:
+                        raise BuildError('%s build failed (also without the jobs %r):\n%s' % (name, cfgs, p2.stderr[-3000:]))
+                    open(os.path.join(out, 'unavailable_jobs.json'), 'w').write(json.dumps(cfgs))
             p = _run(['cargo', 'build', '--offline', '--bin', 'solstat'], run, env_run, log)
             if p.returncode != 0:
                 raise BuildError('solstat binary build failed:\n' + p.stderr[-3000:])
